@@ -54,6 +54,9 @@ type S struct {
 	OnExit   func(name string)
 	// OnPass is called when a registered process passes a gate in free mode.
 	OnPass func(*Gate)
+	// IsStale tells whether an unregistered goroutine belongs to a stopped incarnation (it was in transit between two
+	// gates when the process stopped): such a goroutine never continues.
+	IsStale func(goid int64) bool
 	// OnAnon names a library-spawned goroutine at its first gate.
 	OnAnon func(site string) string
 }
@@ -187,6 +190,10 @@ func (s *S) Arrive(kind, site string, info map[string]any) Outcome {
 	if p == nil && s.free {
 		s.mu.Unlock()
 		return Outcome{Kind: "free"}
+	}
+	if p == nil && s.IsStale != nil && s.IsStale(id) {
+		s.mu.Unlock()
+		select {}
 	}
 	if p == nil {
 		name := ""
@@ -341,6 +348,19 @@ func (s *S) KillAll(except map[string]bool) {
 		p.dead = true
 		delete(s.byName, n)
 	}
+}
+
+// AllStacks returns the stacks of all goroutines that have a frame inside pkg, parked at a gate or not.
+func AllStacks(pkg string) []string {
+	buf := make([]byte, 1<<20)
+	n := runtime.Stack(buf, true)
+	var res []string
+	for _, g := range strings.Split(string(buf[:n]), "\n\n") {
+		if strings.Contains(g, pkg) {
+			res = append(res, g)
+		}
+	}
+	return res
 }
 
 // Stacks returns the stacks of goroutines that have a frame inside pkg, except parked ones.
